@@ -458,6 +458,9 @@ func (st *State) selectPath(cur Val, curT types.Type, path []int, x *ast.Selecto
 				cur = st.deref(cur, x.Pos(), exprStr(x.X)).Sub[idx]
 			default:
 				st.obligeNonNil(cur, x.Pos(), exprStr(x.X))
+				if len(path) == 1 {
+					st.guardCheck(structT, f.Name(), cur, false, x.Pos(), exprStr(x))
+				}
 				cur = st.named(st.loadField(nil, cur.S, structT, f.Name()), f.Name())
 			}
 		} else {
